@@ -66,6 +66,20 @@ def run(ctx, R):
     F = ctx.facts()
     R.rule("RF9 category order/table, RF1 per-category key types, RF9 ordering translations, RF9 24 dispatch arms")
 
+    # 0. "T1 == T2 holds iff compare gives =": the traversal skips a pair it has already visited (cyclic terms). The
+    # visited set must identify a pair by the compared *cells* (tag + location): a packed-string location is a byte offset,
+    # a list/structure location a cell index, so two bare numbers of different kinds of pair can coincide and an unequal
+    # pair would be skipped as "visited"
+    st = [s for s in F.types["structs"] if s["path"].endswith("heap_iter::ParallelHeapIter")]
+    if len(st) != 1:
+        raise AnchorLost("struct ParallelHeapIter")
+    vis = [t for f_, t in st[0]["fields"] if re.search(r"IndexSet<|HashSet<|BTreeSet<", t)]
+    if len(vis) != 1:
+        raise AnchorLost("ParallelHeapIter: visited-pair set field (%s)" % vis)
+    R.ob("C13:visited-pairs:keyed-by-tagged-cells", "(types::HeapCellValue, types::HeapCellValue)" in vis[0] and "usize" not in vis[0],
+         "ParallelHeapIter remembers visited pairs as %s: bare locations of different kinds (byte offsets of packed strings, cell indices of lists) collide, and "
+         "compare(O, g(S1,L1), g(S2,L2)) reports = for different lists at the colliding cells" % vis[0], "%s:%s" % (st[0]["file"], st[0]["line"]))
+
     # 1. enum order + derived Ord
     en = F.enum("machine_indices::TermOrderCategory")
     names = [v["name"] for v in en["variants"]]
